@@ -12,6 +12,9 @@ import (
 	"testing/synctest"
 	"time"
 
+	"github.com/refraction-networking/uquic/quicvarint"
+	tls "github.com/refraction-networking/utls"
+
 	quic "github.com/refraction-networking/uquic"
 	"github.com/refraction-networking/uquic/internal/protocol"
 	u "github.com/refraction-networking/uquic/internal/verifutil"
@@ -43,6 +46,7 @@ func runConnIDs(w *bufio.Writer, seed uint64, n int, _ []string) {
 	for i := 0; i < nm; i++ {
 		c.mgrCase(r.Fork(), i)
 	}
+	c.limitCases()
 	c.genWitnesses()
 	for i := 0; i < ng; i++ {
 		c.genCase(r.Fork(), i, false)
@@ -641,6 +645,20 @@ func (c *cidRun) mgrWitnesses() {
 		s.do(&mOp{kind: "close"})
 		s.emit()
 	}
+	// W11 (observation, not a finding of C16): IDs handed to path probing are not counted by Add's
+	// limit check, so the manager can hold more IDs than it advertised - generous, never stricter
+	s = c.newMgrSession(init, "W11")
+	s.do(add(1, 0)); s.do(add(2, 0)); s.do(add(3, 0))
+	for p := int64(1); p <= 3; p++ {
+		s.do(&mOp{kind: "pget", pid: p})
+	}
+	s.do(add(4, 0)); s.do(add(5, 0))
+	last6 := s.do(add(6, 0))
+	if st := s.v.State(); last6.cls == quic.VerifOK && 1+len(st.Queue)+len(st.Probing) > maxActive {
+		fmt.Fprintf(c.w, "INFO\tobservation: with 3 probing paths the manager holds %d connection IDs of the peer while advertising active_connection_id_limit %d (Add counts len(queue) only; RFC 9000 5.1.1 counts all active IDs)\n",
+			1+len(st.Queue)+len(st.Probing), maxActive)
+	}
+	s.emit()
 	// W4: exactly the limit is accepted, one more is refused
 	s = c.newMgrSession(init, "W4")
 	for q := uint64(1); q <= maxActive; q++ {
@@ -1936,4 +1954,109 @@ func (c *cidRun) routeCase(r *u.Rng, idx int) {
 	c.dist["route/ops"] += len(ops)
 	c.dist["route/replace-with-closed"] += nReplace
 	c.dist["route/packets"] += nDeliver
+}
+
+// ---------------------------------------------------------------------------------
+// which limit is advertised, which is enforced: through the real client constructors
+// ---------------------------------------------------------------------------------
+
+// limitCases builds real client connections (newClientConnection / newUClientConnection via the
+// C12 unit's constructor harness, used read-only), reads the active_connection_id_limit off the
+// ClientHello with an independent parser, and asks the connection's own connIDManager how many IDs
+// it takes. Model: coq/ConnIDs/LimitSel.v. Monitor: every ID within the advertised limit is accepted.
+func (c *cidRun) limitCases() {
+	type variant struct {
+		name   string
+		client string
+		set    int64 // -2 = leave the spec alone, -1 = suppress the parameter, else the value to advertise
+	}
+	vs := []variant{{"plain", "plain", -2}, {"Firefox_116A", "Firefox_116A", -2}, {"Chrome_115_IPv4", "Chrome_115_IPv4", -2},
+		{"Firefox-suppressed", "Firefox_116A", -1}, {"Chrome-suppressed", "Chrome_115_IPv4", -1}}
+	for _, v := range []int64{2, 3, 4, 5, 9} {
+		vs = append(vs, variant{fmt.Sprintf("Firefox-set-%d", v), "Firefox_116B", v})
+	}
+	for _, v := range vs {
+		var sp *quic.QUICSpec
+		if v.client != "plain" {
+			var err error
+			if sp, err = specFor(v.client); err != nil {
+				fmt.Fprintf(c.w, "MONFAIL\tconnids/limit/spec\t%s\t%s\n", err.Error(), v.name)
+				continue
+			}
+			if v.set == -1 {
+				sp.SuppressTransportParameters = append(sp.SuppressTransportParameters, 0x0e)
+			} else if v.set >= 0 {
+				if !connidsSetSpecCIDLimit(sp, uint64(v.set)) {
+					fmt.Fprintf(c.w, "INFO\tlimit case %s: spec has no active_connection_id_limit to replace\n", v.name)
+					continue
+				}
+			}
+		}
+		vc, err := quic.VerifAdvEnfBuild(sp, nil, advenfClientTLS())
+		if err != nil {
+			fmt.Fprintf(c.w, "MONFAIL\tconnids/limit/build\t%s\t%s\n", err.Error(), v.name)
+			continue
+		}
+		ch, err := vc.ClientHello()
+		var wire int64 = -1 // absent
+		if err == nil {
+			if ext, ok := chExtension(ch, 57); ok {
+				if es, ok := parseTPs(ext); ok {
+					for _, e := range es {
+						if e.id == 0x0e {
+							if x, _, perr := quicvarint.Parse(e.val); perr == nil {
+								wire = int64(x)
+							}
+						}
+					}
+				}
+			}
+		}
+		accepted, adv := quic.ConnidsVerifFillUntilLimit(vc.C)
+		vc.Close()
+		if err != nil {
+			fmt.Fprintf(c.w, "MONFAIL\tconnids/limit/clienthello\t%s\t%s\n", err.Error(), v.name)
+			continue
+		}
+		src := "LPlain"
+		if v.client != "plain" {
+			src = u.App("LSpec", u.Opt(wire >= 0, u.Z(wire)))
+		}
+		fmt.Fprintf(c.w, "CASE 1 %s\n", u.App("LimitCase", src, u.ZU(adv), u.Z(int64(accepted))))
+		// (b) every connection ID within the limit this endpoint put on the wire is accepted
+		// (the peer may hold wire-limit IDs: the one in use and wire-limit - 1 new ones)
+		lim := wire
+		if lim < 0 {
+			lim = 2
+		}
+		if int64(accepted) < lim-1 {
+			fmt.Fprintf(c.w, "MONFAIL\tconnids/limit/refused-within-advertised\tclient %s advertises active_connection_id_limit %d (wire: %d) but refuses the connection ID number %d\t%s\n",
+				v.name, lim, wire, accepted+2, v.name)
+		}
+		if v.client == "plain" && wire != maxActive {
+			fmt.Fprintf(c.w, "MONFAIL\tconnids/limit/plain-wire\tthe plain client advertises %d, MaxActiveConnectionIDs is %d\t%s\n", wire, maxActive, v.name)
+		}
+		c.dist["limit/cases"]++
+		fmt.Fprintf(c.w, "INFO\tlimit %s: wire=%d advertisedLimit=%d accepted-before-LIMIT=%d\n", v.name, wire, adv, accepted)
+	}
+}
+
+// connidsSetSpecCIDLimit replaces the active_connection_id_limit of a spec's QUIC transport parameters.
+func connidsSetSpecCIDLimit(sp *quic.QUICSpec, v uint64) bool {
+	if sp.ClientHelloSpec == nil {
+		return false
+	}
+	for _, ext := range sp.ClientHelloSpec.Extensions {
+		if q, ok := ext.(*tls.QUICTransportParametersExtension); ok {
+			for i, tp := range q.TransportParameters {
+				if _, ok := tp.(tls.ActiveConnectionIDLimit); ok {
+					q.TransportParameters[i] = tls.ActiveConnectionIDLimit(v)
+					return true
+				}
+			}
+			q.TransportParameters = append(q.TransportParameters, tls.ActiveConnectionIDLimit(v))
+			return true
+		}
+	}
+	return false
 }
